@@ -88,6 +88,32 @@ Proof.
     inv_bind H. destruct (negb x1); [discriminate|]. apply register_inv in H. now subst.
 Qed.
 
+(* Stack / Concatenate build arrays *)
+Lemma infer_nlin_leaf o ts r : is_nlin_op o = true -> infer o ts = Ok r -> is_leaf r = true.
+Proof.
+  intros Hn H. destruct o; try discriminate; unfold infer in H; cbn [arity] in H; unfold infer_op in H.
+  - destruct (negb (is_valid_shape outer)); [discriminate|]. destruct (negb (zlen ts =? prod_list outer)); [discriminate|].
+    inv_bind H. apply register_inv in H. subst. destruct (is_scalar x); reflexivity.
+  - destruct (zlen ts <? 2); [discriminate|]. destruct (negb (forallb is_arr ts)); [discriminate|].
+    cbv zeta in H. destruct (zlen (shape_of (nth 0 ts (TTuple []))) <=? axis); [discriminate|].
+    inv_bind H. apply register_inv in H. subst. reflexivity.
+Qed.
+
+(* constants keep the type they carry *)
+Lemma infer_const_ty o t r :
+  (o = OZeros t \/ o = OOnes t \/ exists v, o = OConstant t v) -> infer o [] = Ok r -> r = t.
+Proof.
+  intros Ho H. unfold infer in H.
+  destruct Ho as [-> | [-> | (v & ->)]]; cbn [arity] in H; change (zlen (@nil ty) =? 0) with true in H; cbv iota in H;
+    unfold infer_op in H.
+  - destruct (negb (ty_valid t)); [discriminate|]. now apply register_inv in H.
+  - destruct (negb (ty_valid t)); [discriminate|]. now apply register_inv in H.
+  - repeat match type of H with (if ?c then _ else _) = _ => destruct c; [discriminate|] end.
+    repeat match type of H with bind _ _ = Ok _ => inv_bind H end.
+    repeat match type of H with (if ?c then _ else _) = _ => destruct c; try discriminate end.
+    now apply register_inv in H.
+Qed.
+
 (* the type of a gadget node of the elementwise fragment: a leaf, or a triple whose first
    component is a leaf *)
 Definition share_ty (t : ty) : Prop := exists t1 t2 t3, t = TTuple [t1; t2; t3] /\ is_leaf t1 = true.
@@ -149,6 +175,16 @@ Proof.
   destruct (f b) as [y| | |]; cbn [bind] in H; try discriminate.
   destruct (f c) as [z| | |]; cbn [bind] in H; try discriminate.
   inversion H; subst. eauto 10.
+Qed.
+
+(* on two public operands a gadget node has an array/scalar type *)
+Lemma gadget_ty_pub g ta tb t :
+  elem_gadget g = true -> is_leaf ta = true -> is_leaf tb = true -> gadget_ty g [ta; tb] = Ok t -> is_leaf t = true.
+Proof.
+  intros Hg La Lb H.
+  destruct ta; try discriminate; destruct tb; try discriminate; destruct g as [| |p];
+    cbv beta iota delta [gadget_ty] in H;
+    first [ eapply infer_arith_leaf in H; [tauto | reflexivity] | eapply infer_bil_leaf; [exact Hg | exact H] ].
 Qed.
 
 Lemma gadget_ty_shape g t0 t1 r :
